@@ -65,7 +65,7 @@ func (m c10) undo(c *fw.Ctx, kind string, tab []gts.Feature, hostB []byte, gtab 
 	c.Bucket("host:" + kind)
 	host := mkHost(kind, tab, hostB)
 	guest := gts.New(nil, gen.SortedTable(gen.CloneTable(gtab)), append([]byte(nil), guestB...))
-	var res gts.Sequence
+	var res, res2, res3 gts.Sequence
 	p, val, site, stack := fw.Guard(func() {
 		var mid gts.Sequence
 		if embed {
@@ -74,14 +74,34 @@ func (m c10) undo(c *fw.Ctx, kind string, tab []gts.Feature, hostB []byte, gtab 
 			mid = gts.Insert(host, i, guest)
 		}
 		res = gts.Delete(mid, i, len(guestB))
+		// the edited sequence is a value: undoing the edit a second time
+		// gives the same.
+		res2 = gts.Delete(mid, i, len(guestB))
+		// and so is the host: the other edit, made and undone from the same
+		// host afterwards, gives the host again.
+		var mid3 gts.Sequence
+		if embed {
+			mid3 = gts.Insert(host, i, guest)
+		} else {
+			mid3 = gts.Embed(host, i, guest)
+		}
+		res3 = gts.Delete(mid3, i, len(guestB))
 	})
 	if p {
 		c.ViolateX("undo:"+panicClass(site, val), enc, "no panic", fmt.Sprint(val), stack, nil)
 		return
 	}
 	c.Hold(enc, func() string { return heldSeq(res) })
+	if a, b := heldSeq(res), heldSeq(res2); a != b {
+		c.Violate("undo:"+op+":second-undo-of-the-same-value-differs", enc, a, b)
+		return
+	}
 	if !bytes.Equal(res.Bytes(), hostB) {
 		c.Violate("undo:"+op+":residues", enc, string(hostB), string(res.Bytes()))
+		return
+	}
+	if !bytes.Equal(res3.Bytes(), hostB) || !bytes.Equal(host.Bytes(), hostB) {
+		c.Violate("undo:"+op+":host-changed-by-the-first-edit", enc, string(hostB), fmt.Sprintf("host %q, second edit undone %q", host.Bytes(), res3.Bytes()))
 		return
 	}
 	got := map[string][]gts.Feature{}
@@ -149,19 +169,25 @@ func (m c10) cut(c *fw.Ctx, kind string, tab []gts.Feature, hostB []byte, cuts [
 	c.Bucket("host:" + kind)
 	host := mkHost(kind, tab, hostB)
 	bounds := append(append([]int{0}, cuts...), L)
-	var res gts.Sequence
+	var res, res2 gts.Sequence
 	p, val, site, stack := fw.Guard(func() {
 		pieces := make([]gts.Sequence, 0, len(bounds)-1)
 		for k := 0; k+1 < len(bounds); k++ {
 			pieces = append(pieces, gts.Slice(host, bounds[k], bounds[k+1]))
 		}
 		res = gts.Concat(pieces...)
+		// the pieces are values: concatenating them again gives the same.
+		res2 = gts.Concat(pieces...)
 	})
 	if p {
 		c.ViolateX("cut:"+panicClass(site, val), enc, "no panic", fmt.Sprint(val), stack, nil)
 		return
 	}
 	c.Hold(enc, func() string { return heldSeq(res) })
+	if a, b := heldSeq(res), heldSeq(res2); a != b {
+		c.Violate("cut:second-concat-of-the-same-pieces-differs", enc, a, b)
+		return
+	}
 	if !bytes.Equal(res.Bytes(), hostB) {
 		c.Violate("cut:residues", enc, string(hostB), string(res.Bytes()))
 		return
